@@ -96,7 +96,8 @@ def gen_spec(rng, name="DEV", depth=None, max_groups=3, formats=None, kinds=None
             groups.append({"attr": base_g["attr"], "name": base_g["name"] + "_OVR", "enabled": True, "vectors": vectors})
         levels.append({"groups": groups})
     spec = {"name": name, "levels": levels}
-    ensure_all_kinds_reachable(spec)
+    if depth > 1 and rng.random() < 0.5:
+        spec["instantiate_bases"] = True      # base classes of the chain are used as drivers too (instances created base first)
     return spec
 
 
@@ -189,6 +190,8 @@ def build(spec, extra_ns=None, leaf_hook=None):
             if leaf_hook:
                 leaf_hook(ns, all_defs)
         base = type(f"Gen{n}_{spec['name']}_L{li}".replace(" ", "_"), (base,), ns)
+        if spec.get("instantiate_bases") and li != last:
+            base(name=f"{spec['name']}_BASE{li}", router=None)    # a stand-alone driver of the base class, created first
     return base
 
 
